@@ -56,7 +56,10 @@ func c07Check(c c07Case, res *c07Result) error {
 	base := p.m.Base
 	end := base + uint32(len(code))
 	if base>>16 != (end-1)>>16 {
-		return fmt.Errorf("harness: program leaves its bank")
+		if res != nil {
+			res.Excluded = "program does not fit into one bank (outside the property's domain)"
+		}
+		return nil
 	}
 	pri, alt := cpus()
 	for _, cpu := range []rig.CPU{pri, alt} {
@@ -77,7 +80,8 @@ func c07Check(c c07Case, res *c07Result) error {
 				// a block move repeats at the same address: collapsed
 			} else {
 				if idx == len(starts) {
-					if at != end {
+					// the program counter wraps inside the program bank when the program ends at $xx:FFFF
+					if at != base&0xff0000|end&0xffff {
 						return fmt.Errorf("%s: after the last instruction the CPU is at $%06x, the program ends at $%06x", cpu.Name(), at, end)
 					}
 					break
@@ -173,6 +177,10 @@ func c07Sanitize(ops []asmcat.Op, progBank byte) []asmcat.Op {
 		if ok, _ := m.Apply(o); ok || o.Kind == "ins" {
 			out = append(out, o)
 		}
+	}
+	// keep the program inside its bank (sanitising may have changed its size)
+	if len(out) > 0 && out[0].Kind == "setbase" && int(out[0].V&0xffff)+len(m.Bytes) > 0x10000 {
+		out[0].V = out[0].V&0xff0000 | uint32(0x10000-len(m.Bytes))&0xffff
 	}
 	return out
 }
